@@ -1,0 +1,72 @@
+//! Verification hooks, compiled only with `--cfg netflow_parser_verif`.
+//!
+//! The shipped library uses `std::collections::HashMap/HashSet` with `RandomState`, whose
+//! per-instance random keys are the only source of nondeterminism in this crate. With the
+//! cfg flag on, the hashed collections use `SeededState` instead, whose key is taken from a
+//! thread-local the simulator sets, so that one simulator seed decides the whole execution
+//! (including the iteration order of the template caches and of `allowed_versions`).
+
+use std::cell::Cell;
+use std::hash::{BuildHasher, Hasher};
+
+thread_local! {
+    static HASH_SEED: Cell<u64> = const { Cell::new(0x9E37_79B9_7F4A_7C15) };
+}
+
+/// Sets the key the next `SeededState::default()` on this thread starts from.
+pub fn set_hash_seed(seed: u64) {
+    HASH_SEED.with(|s| s.set(seed));
+}
+
+/// Current value of the thread-local key (advances with every `SeededState::default()`).
+pub fn hash_seed() -> u64 {
+    HASH_SEED.with(|s| s.get())
+}
+
+/// `BuildHasher` whose key comes from the simulator instead of the OS.
+#[derive(Clone, Debug)]
+pub struct SeededState {
+    key: u64,
+}
+
+impl Default for SeededState {
+    fn default() -> Self {
+        HASH_SEED.with(|s| {
+            let key = s.get();
+            // advance, so that the collections of one parser get different keys
+            s.set(key.wrapping_mul(0x5851_F42D_4C95_7F2D).wrapping_add(0x1405_7B7E_F767_814F));
+            SeededState { key }
+        })
+    }
+}
+
+impl BuildHasher for SeededState {
+    type Hasher = SeededHasher;
+    fn build_hasher(&self) -> SeededHasher {
+        SeededHasher { state: self.key }
+    }
+}
+
+/// Small keyed mixing hasher (not DoS resistant; simulation only).
+#[derive(Clone, Debug)]
+pub struct SeededHasher {
+    state: u64,
+}
+
+impl Hasher for SeededHasher {
+    fn write(&mut self, bytes: &[u8]) {
+        for b in bytes {
+            self.state = (self.state ^ u64::from(*b)).wrapping_mul(0x0000_0100_0000_01B3);
+            self.state ^= self.state >> 29;
+        }
+    }
+    fn finish(&self) -> u64 {
+        let mut z = self.state.wrapping_add(0x9E37_79B9_7F4A_7C15);
+        z = (z ^ (z >> 30)).wrapping_mul(0xBF58_476D_1CE4_E5B9);
+        z = (z ^ (z >> 27)).wrapping_mul(0x94D0_49BB_1331_11EB);
+        z ^ (z >> 31)
+    }
+}
+
+pub type HashMap<K, V> = std::collections::HashMap<K, V, SeededState>;
+pub type HashSet<K> = std::collections::HashSet<K, SeededState>;
